@@ -35,6 +35,11 @@ fn gen(seed: u64, idx: u64, _tier: Tier) -> Plan {
             s.status_interval = Some(1);
         }
     }
+    if mode == Mode::F && rng.chance(1, 3) {
+        // the seed as an operator may write it: upper-case or mixed-case hexadecimal
+        let mixed: String = s.seed_hex.chars().map(|c| if rng.chance(1, 2) { c.to_ascii_uppercase() } else { c }).collect();
+        s.seed_written = Some(if rng.chance(1, 2) { s.seed_hex.to_uppercase() } else { mixed });
+    }
     world_knobs(&mut rng, &mut plan, false);
     if rng.chance(1, 2) {
         // error paths log too: socket, TCP and file errors while traffic flows
